@@ -713,7 +713,8 @@ class Ctx:
 
     def int(self, name, lo, hi):
         if self.concrete:
-            v = int(self.cinputs[name])
+            # an input that is created after the violated claim is not part of the model: any admissible value will do
+            v = int(self.cinputs[name]) if name in self.cinputs else int(lo)
             if not lo <= v <= hi:
                 raise HarnessError("replay input %s=%s outside [%s,%s]" % (name, v, lo, hi))
             return v
@@ -724,6 +725,11 @@ class Ctx:
 
     def real(self, name, lo=None, hi=None, lo_strict=False, hi_strict=False):
         if self.concrete:
+            if name not in self.cinputs:
+                base = 0.0 if lo is None and hi is None else (float(lo) if lo is not None else float(hi) - 1.0)
+                if lo is not None and lo_strict:
+                    base = float(lo) + (min(1.0, (float(hi) - float(lo)) / 2.0) if hi is not None else 1.0)
+                return base
             return float(self.cinputs[name])
         v = z3.Real(name)
         self._reg(name, "real", v)
@@ -738,7 +744,7 @@ class Ctx:
 
     def bool(self, name):
         if self.concrete:
-            return bool(self.cinputs[name])
+            return bool(self.cinputs.get(name, False))
         v = z3.Bool(name)
         self._reg(name, "bool", v)
         return SymBool(v)
@@ -749,7 +755,7 @@ class Ctx:
         if not options:
             raise PathAbort()
         if self.concrete:
-            return options[int(self.cinputs[name])]
+            return options[int(self.cinputs.get(name, 0))]
         v = z3.Int(name)
         self._reg(name, "int", v)
         self.assume_term(z3.And(v >= 0, v < len(options)), quiet=True)
@@ -1079,6 +1085,14 @@ class Ctx:
         for name in self.order:
             kind, var = self.inputs[name]
             out[name] = _plain(_val_of(model, var))
+        # an input angle enters the path condition only through its abstract (cos, sin) pair: the concrete angle that goes with the
+        # model is the one whose cosine and sine are the model's pair
+        for key, (c, s_) in self.trigs.items():
+            if key in self.inputs:
+                try:
+                    out[key] = math.atan2(float(_plain(_val_of(model, s_.t))), float(_plain(_val_of(model, c.t))))
+                except Exception:
+                    pass
         return out
 
     def _region_match(self, label, model_inputs):
